@@ -43,4 +43,8 @@ def run(tier: str, seed: int):
     if tier != 'quick':
         x_cf, x_se, x_e3 = F.thorough_extras('C02')
         cfgs, serial, e3c = list(cfgs) + x_cf, list(serial) + x_se, list(e3c) + x_e3
+    # dependencies whose result is None or an exception object
+    cfgs = list(cfgs) + list(F.fam_none(3))
+    serial = list(serial) + list(F.fam_none(2))
+    e3c = list(e3c) + list(F.fam_e3(F.fam_none(2), workers=(2,), liveness=False))
     return run_e2_property('C02', tier, seed, cfgs, serial_configs=serial, e3_configs=e3c, real_cases=list(F.fam_real(F.real_bases('plain') + F.real_bases('faults'), workers=(2,))), rule=rule, assumptions=ASSUME)
